@@ -1,6 +1,431 @@
 (* C15 — single-party signatures verify exactly for the signed message and key.
-   Property theorems only; proofs are in proofs/{Ecdsa,Schnorr,Bls}_proofs.v. *)
-From Coq Require Import ZArith List Bool.
+   Property theorems only; proofs are in proofs/{ZnInv,Ecdsa,Schnorr,Bls}_proofs.v.
+   The models (model/Ecdsa.v, Schnorr.v, Bls.v) are hand-written after pkg/signatures and tied to the
+   code by the correspondence run.  Idealisations (definitions, not axioms): a prime-order group is
+   Z_n in the exponent; hash-to-curve outputs are fresh basis elements of linear forms; the
+   x-coordinate / y-parity / FromAffineX maps, the challenge and the key encoding are abstract
+   functions constrained only by the hypotheses visible in each statement. *)
+From Coq Require Import ZArith Znumtheory List Bool Zdiv.
 Import ListNotations.
 Require Import V.base.Fld V.model.Ecdsa V.model.Schnorr V.model.Bls.
+Require Import V.proofs.ZnInv_proofs V.proofs.Ecdsa_proofs V.proofs.Schnorr_proofs V.proofs.Bls_proofs.
 Local Open Scope Z_scope.
+
+(* ======================================== ECDSA ================================================== *)
+(* hypotheses on the curve maps, used below:
+     xf_inj    := forall a b, 0<a<n -> 0<b<n -> (xf a = xf b <-> a = b \/ a = n - b)
+     yodd_neg  := forall a, 0<a<n -> yodd (n - a) = negb (yodd a)
+     lift_spec := forall x b k, lift x b = Some k <-> (0<k<n /\ xf k = x /\ yodd k = b)            *)
+
+(* the extended-Euclid inverse used by the models is a modular inverse for prime moduli *)
+Theorem C15_inverse_correct : forall p a, prime p -> 0 < a < p -> (a * zp_inv p a) mod p = 1.
+Proof. exact zp_inv_correct. Qed.
+Print Assumptions C15_inverse_correct.
+
+(* a signature produced by Sign verifies, carries a recovery id in 0..3, and that id is the documented
+   one: bit 0 is the parity of y(kG), the x-coordinate looked up is x(kG) *)
+Theorem C15_ecdsa_sign_verify : forall n p xf yodd lift,
+  prime n ->
+  (forall x b k, lift x b = Some k <-> (0 < k < n /\ xf k = x /\ yodd k = b)) ->
+  forall d e k sg, 0 < d < n -> 0 < k < n ->
+  ecdsa_sign n p xf lift d e k = Some sg ->
+  ecdsa_verify n p xf lift false sg d e = true /\
+  exists v, sv sg = Some v /\ In v [0; 1; 2; 3] /\ sr sg = xc n xf k /\ uval n (sr sg) (ss sg) e d = k /\
+            xf k = rxv n p (sr sg) v /\ yodd k = Z.testbit v 0.
+Proof. exact ecdsa_sign_verify. Qed.
+Print Assumptions C15_ecdsa_sign_verify.
+
+(* Sign never fails to find a recovery id once crypto/ecdsa produced non-zero (r, s), for n < p < 2n *)
+Theorem C15_ecdsa_sign_total : forall n p xf yodd lift,
+  prime n ->
+  (forall x b k, lift x b = Some k <-> (0 < k < n /\ xf k = x /\ yodd k = b)) ->
+  forall d e k r s, n < p < 2 * n -> (forall a, 0 < a < n -> 0 <= xf a < p) ->
+  0 < d < n -> 0 < k < n ->
+  sign_rs n xf d e k = Some (r, s) -> exists v, ecdsa_sign n p xf lift d e k = Some (mk_sig r s (Some v)).
+Proof. exact ecdsa_sign_total. Qed.
+Print Assumptions C15_ecdsa_sign_total.
+
+(* the acceptance set without recovery id: r, s in [1,n-1] and x(s^-1 (e + r d) G) = r mod n *)
+Theorem C15_ecdsa_accept_iff_no_recovery_id : forall n p xf lift,
+  prime n ->
+  forall strict r s e d,
+  ecdsa_verify n p xf lift strict (mk_sig r s None) d e = true <->
+  ((strict = true -> is_normalized n s = true) /\
+   0 < r < n /\ 0 < s < n /\ uval n r s e d <> 0 /\ xc n xf (uval n r s e d) = r).
+Proof. exact ecdsa_accept_iff_nov. Qed.
+Print Assumptions C15_ecdsa_accept_iff_no_recovery_id.
+
+(* ... and with a recovery id v: additionally v names the x-coordinate and y-parity of that point *)
+Theorem C15_ecdsa_accept_iff : forall n p xf yodd lift,
+  prime n ->
+  (forall x b k, lift x b = Some k <-> (0 < k < n /\ xf k = x /\ yodd k = b)) ->
+  forall strict r s v e d, 0 < d < n ->
+  (ecdsa_verify n p xf lift strict (mk_sig r s (Some v)) d e = true <->
+   ((strict = true -> is_normalized n s = true) /\
+    0 < r < n /\ 0 < s < n /\ uval n r s e d <> 0 /\ xc n xf (uval n r s e d) = r /\
+    xf (uval n r s e d) = rxv n p r v /\ yodd (uval n r s e d) = Z.testbit v 0)).
+Proof. exact ecdsa_accept_iff. Qed.
+Print Assumptions C15_ecdsa_accept_iff.
+
+(* the documented equivalent form (r, n-s, v xor 1) is accepted by the default verifier ... *)
+Theorem C15_ecdsa_equivalent_form_accepted : forall n p xf yodd lift,
+  prime n ->
+  (forall a b, 0 < a < n -> 0 < b < n -> (xf a = xf b <-> a = b \/ a = n - b)) ->
+  (forall a, 0 < a < n -> yodd (n - a) = negb (yodd a)) ->
+  (forall x b k, lift x b = Some k <-> (0 < k < n /\ xf k = x /\ yodd k = b)) ->
+  forall sg d e, 0 < d < n ->
+  ecdsa_verify n p xf lift false sg d e = true -> ecdsa_verify n p xf lift false (flip n sg) d e = true.
+Proof. exact flip_accepted_by_default. Qed.
+Print Assumptions C15_ecdsa_equivalent_form_accepted.
+
+(* ... the strict verifier rejects whatever has s in the upper half ... *)
+Theorem C15_ecdsa_strict_rejects_high_s : forall n p xf lift r s v d e,
+  is_normalized n s = false -> ecdsa_verify n p xf lift true (mk_sig r s v) d e = false.
+Proof. exact strict_rejects_high. Qed.
+Print Assumptions C15_ecdsa_strict_rejects_high_s.
+
+(* ... and of a valid signature and its equivalent form it accepts exactly one *)
+Theorem C15_ecdsa_strict_accepts_exactly_one : forall n p xf yodd lift,
+  prime n ->
+  (forall a b, 0 < a < n -> 0 < b < n -> (xf a = xf b <-> a = b \/ a = n - b)) ->
+  (forall a, 0 < a < n -> yodd (n - a) = negb (yodd a)) ->
+  (forall x b k, lift x b = Some k <-> (0 < k < n /\ xf k = x /\ yodd k = b)) ->
+  forall sg d e, 2 < n -> 0 < d < n ->
+  ecdsa_verify n p xf lift false sg d e = true ->
+  ecdsa_verify n p xf lift true sg d e = negb (ecdsa_verify n p xf lift true (flip n sg) d e).
+Proof. exact strict_accepts_exactly_one. Qed.
+Print Assumptions C15_ecdsa_strict_accepts_exactly_one.
+
+(* low-S normalisation preserves validity and its result passes the strict verifier *)
+Theorem C15_normalise_preserves : forall n p xf yodd lift,
+  prime n ->
+  (forall a b, 0 < a < n -> 0 < b < n -> (xf a = xf b <-> a = b \/ a = n - b)) ->
+  (forall a, 0 < a < n -> yodd (n - a) = negb (yodd a)) ->
+  (forall x b k, lift x b = Some k <-> (0 < k < n /\ xf k = x /\ yodd k = b)) ->
+  forall sg d e, 2 < n -> 0 < d < n ->
+  ecdsa_verify n p xf lift false sg d e = true ->
+  ecdsa_verify n p xf lift true (normalise n sg) d e = true /\ is_normalized n (ss (normalise n sg)) = true.
+Proof. exact normalise_preserves. Qed.
+Print Assumptions C15_normalise_preserves.
+
+(* public-key recovery returns the key under which the signature verifies / the signing key *)
+Theorem C15_recover_returns_key : forall n p xf lift r s v d e,
+  ecdsa_verify n p xf lift false (mk_sig r s (Some v)) d e = true -> recover n p lift r s v e = Some d.
+Proof. exact recover_returns_key. Qed.
+Print Assumptions C15_recover_returns_key.
+
+Theorem C15_sign_recover_returns_key : forall n p xf yodd lift,
+  prime n ->
+  (forall x b k, lift x b = Some k <-> (0 < k < n /\ xf k = x /\ yodd k = b)) ->
+  forall d e k sg, 0 < d < n -> 0 < k < n ->
+  ecdsa_sign n p xf lift d e k = Some sg ->
+  exists v, sv sg = Some v /\ recover n p lift (sr sg) (ss sg) v e = Some d.
+Proof. exact sign_recover_returns_key. Qed.
+Print Assumptions C15_sign_recover_returns_key.
+
+(* single-component alterations: accepted only on the written coincidence sets
+   (x_wrap a b: the points a·G, b·G have different x-coordinates that agree mod n) *)
+Theorem C15_ecdsa_digest_changed : forall n xf,
+  prime n ->
+  (forall a b, 0 < a < n -> 0 < b < n -> (xf a = xf b <-> a = b \/ a = n - b)) ->
+  forall r s e e' d,
+  verify_core n xf r s e d = true -> verify_core n xf r s e' d = true ->
+  eqm n e e' \/ eqm n e' (- e - 2 * r * d) \/ x_wrap n xf (uval n r s e d) (uval n r s e' d).
+Proof. exact digest_changed. Qed.
+Print Assumptions C15_ecdsa_digest_changed.
+
+Theorem C15_ecdsa_s_changed : forall n xf,
+  prime n ->
+  (forall a b, 0 < a < n -> 0 < b < n -> (xf a = xf b <-> a = b \/ a = n - b)) ->
+  forall r s s' e d,
+  verify_core n xf r s e d = true -> verify_core n xf r s' e d = true ->
+  s = s' \/ s' = n - s \/ x_wrap n xf (uval n r s e d) (uval n r s' e d).
+Proof. exact s_changed. Qed.
+Print Assumptions C15_ecdsa_s_changed.
+
+Theorem C15_ecdsa_key_changed : forall n xf,
+  prime n ->
+  (forall a b, 0 < a < n -> 0 < b < n -> (xf a = xf b <-> a = b \/ a = n - b)) ->
+  forall r s e d d',
+  verify_core n xf r s e d = true -> verify_core n xf r s e d' = true ->
+  eqm n d d' \/ eqm n (r * (d + d')) (- 2 * e) \/ x_wrap n xf (uval n r s e d) (uval n r s e d').
+Proof. exact key_changed. Qed.
+Print Assumptions C15_ecdsa_key_changed.
+
+Theorem C15_ecdsa_recovery_id_changed : forall n p xf yodd lift,
+  prime n ->
+  (forall x b k, lift x b = Some k <-> (0 < k < n /\ xf k = x /\ yodd k = b)) ->
+  forall r s v v' e d, n < p -> 0 < d < n -> 0 <= v <= 3 -> 0 <= v' <= 3 ->
+  ecdsa_verify n p xf lift false (mk_sig r s (Some v)) d e = true ->
+  ecdsa_verify n p xf lift false (mk_sig r s (Some v')) d e = true -> v = v'.
+Proof. exact v_changed. Qed.
+Print Assumptions C15_ecdsa_recovery_id_changed.
+
+(* a changed r is accepted exactly when the acceptance condition above holds for the new r (the
+   characterisation C15_ecdsa_accept_iff is the coincidence set) *)
+
+(* ======================================== Schnorr-like =========================================== *)
+(* generic variant (also Mina: encR = x-only, encP = full): accept iff s·G = R ± e·P with non-identity
+   P, R, non-zero s and torsion-free R *)
+Theorem C15_schnorr_accept_iff : forall n M (chal : Z -> Z -> M -> Z),
+  prime n ->
+  forall neg_resp encR encP sg pk m,
+  gen_verify n M chal neg_resp encR encP sg pk m = true <->
+  (~ eqm n (g_k pk) 0 /\ ~ eqm n (s_s sg) 0 /\ ~ eqm n (g_k (s_R sg)) 0 /\ g_tf (s_R sg) = true /\
+   eqm n (s_s sg) (gen_rhs neg_resp (g_k (s_R sg)) (g_k pk) (chal (encR (g_k (s_R sg))) (encP (g_k pk)) m))).
+Proof. exact (fun n M chal Hp neg encR encP => gen_accept_iff n M chal Hp neg encR encP (fun _ => false)). Qed.
+Print Assumptions C15_schnorr_accept_iff.
+
+Theorem C15_schnorr_sign_verify : forall n M (chal : Z -> Z -> M -> Z) neg_resp encR encP negate_nonce x k0 m sg,
+  gen_sign n M chal neg_resp encR encP negate_nonce x k0 m = Some sg ->
+  gen_verify n M chal neg_resp encR encP sg (mk_gelt true x) m = true /\
+  sg = mk_ssig (mk_gelt true (gen_nonce n negate_nonce k0)) (gen_resp n M chal neg_resp encR encP negate_nonce x k0 m).
+Proof. exact gen_sign_verify. Qed.
+Print Assumptions C15_schnorr_sign_verify.
+
+(* Sign succeeds (its self-verification passes) whenever key, nonce and response are non-zero *)
+Theorem C15_schnorr_sign_total : forall n M (chal : Z -> Z -> M -> Z),
+  prime n ->
+  forall neg_resp encR encP negate_nonce x k0 m,
+  ~ eqm n x 0 -> ~ eqm n k0 0 -> ~ eqm n (gen_resp n M chal neg_resp encR encP negate_nonce x k0 m) 0 ->
+  gen_sign n M chal neg_resp encR encP negate_nonce x k0 m
+    = Some (mk_ssig (mk_gelt true (gen_nonce n negate_nonce k0)) (gen_resp n M chal neg_resp encR encP negate_nonce x k0 m)).
+Proof. exact gen_sign_total. Qed.
+Print Assumptions C15_schnorr_sign_total.
+
+(* a changed message is accepted only if the two challenges collide *)
+Theorem C15_schnorr_message_changed : forall n M (chal : Z -> Z -> M -> Z),
+  prime n -> (forall a b m, 0 <= chal a b m < n) ->
+  forall neg_resp encR encP sg pk m m',
+  gen_verify n M chal neg_resp encR encP sg pk m = true ->
+  gen_verify n M chal neg_resp encR encP sg pk m' = true ->
+  chal (encR (g_k (s_R sg))) (encP (g_k pk)) m = chal (encR (g_k (s_R sg))) (encP (g_k pk)) m'.
+Proof. exact (fun n M chal Hp Hr neg encR encP => gen_message_changed n M chal Hp Hr neg encR encP (fun _ => false)). Qed.
+Print Assumptions C15_schnorr_message_changed.
+
+Theorem C15_schnorr_response_changed : forall n M (chal : Z -> Z -> M -> Z),
+  prime n ->
+  forall neg_resp encR encP R s s' pk m,
+  gen_verify n M chal neg_resp encR encP (mk_ssig R s) pk m = true ->
+  gen_verify n M chal neg_resp encR encP (mk_ssig R s') pk m = true -> eqm n s s'.
+Proof. exact (fun n M chal Hp neg encR encP => gen_response_changed n M chal Hp neg encR encP (fun _ => false)). Qed.
+Print Assumptions C15_schnorr_response_changed.
+
+(* a changed key is accepted only on the written relation between the two challenges *)
+Theorem C15_schnorr_key_changed : forall n M (chal : Z -> Z -> M -> Z),
+  prime n ->
+  forall neg_resp encR encP sg pk pk' m,
+  gen_verify n M chal neg_resp encR encP sg pk m = true ->
+  gen_verify n M chal neg_resp encR encP sg pk' m = true ->
+  eqm n (g_k pk * chal (encR (g_k (s_R sg))) (encP (g_k pk)) m)
+        (g_k pk' * chal (encR (g_k (s_R sg))) (encP (g_k pk')) m).
+Proof. exact (fun n M chal Hp neg encR encP => gen_key_changed n M chal Hp neg encR encP (fun _ => false)). Qed.
+Print Assumptions C15_schnorr_key_changed.
+
+Theorem C15_mina_accept_iff : forall n M (chal : Z -> Z -> M -> Z),
+  prime n ->
+  forall sg pk m,
+  mina_verify n M chal sg pk m = true <->
+  (~ eqm n (g_k pk) 0 /\ ~ eqm n (s_s sg) 0 /\ ~ eqm n (g_k (s_R sg)) 0 /\ g_tf (s_R sg) = true /\
+   eqm n (s_s sg) (g_k (s_R sg) + g_k pk * chal (xo n (g_k (s_R sg))) (full n (g_k pk)) m)).
+Proof. exact mina_accept_iff. Qed.
+Print Assumptions C15_mina_accept_iff.
+
+(* BIP-340: accept iff R' = s·G − e·lift_x(P) is not the identity, has even y and the x-coordinate of R *)
+Theorem C15_bip340_accept_iff : forall n yodd M (chal : Z -> Z -> M -> Z),
+  prime n ->
+  forall sg pk m,
+  bip_verify n yodd M chal sg pk m = true <->
+  (~ eqm n (s_s sg) 0 /\ ~ eqm n (g_k (s_R sg)) 0 /\ ~ eqm n (g_k pk) 0 /\ g_tf pk = true /\
+   let P := even_y n yodd (g_k pk) in
+   let R' := bip_R' n (s_s sg) P (chal (xo n (g_k (s_R sg))) (xo n P) m) in
+   R' <> 0 /\ yodd R' = false /\ xo n R' = xo n (g_k (s_R sg))).
+Proof. exact bip_accept_iff. Qed.
+Print Assumptions C15_bip340_accept_iff.
+
+Theorem C15_bip340_sign_verify : forall n yodd M (chal : Z -> Z -> M -> Z) d0 k0 m sg,
+  bip_sign n yodd M chal d0 k0 m = Some sg ->
+  bip_verify n yodd M chal sg (mk_gelt true (d0 mod n)) m = true /\
+  sg = mk_ssig (mk_gelt true (bip_k n yodd k0)) (bip_s n yodd M chal d0 k0 m).
+Proof. exact bip_sign_verify. Qed.
+Print Assumptions C15_bip340_sign_verify.
+
+(* the signer's parity corrections make its own verification pass; the R it returns has even y *)
+Theorem C15_bip340_sign_total : forall n yodd M (chal : Z -> Z -> M -> Z),
+  prime n ->
+  (forall a, 0 < a < n -> yodd (n - a) = negb (yodd a)) ->
+  forall d0 k0 m, 0 < d0 < n -> 0 < k0 < n -> ~ eqm n (bip_s n yodd M chal d0 k0 m) 0 ->
+  bip_sign n yodd M chal d0 k0 m = Some (mk_ssig (mk_gelt true (bip_k n yodd k0)) (bip_s n yodd M chal d0 k0 m)) /\
+  yodd (bip_k n yodd k0) = false.
+Proof. exact bip_sign_total. Qed.
+Print Assumptions C15_bip340_sign_total.
+
+(* (R, s) and (−R, s) are the same 64 bytes and get the same verdict *)
+Theorem C15_bip340_R_negation_same_verdict : forall n yodd M (chal : Z -> Z -> M -> Z) tf rk s pk m,
+  0 < rk < n ->
+  bip_verify n yodd M chal (mk_ssig (mk_gelt tf (n - rk)) s) pk m = bip_verify n yodd M chal (mk_ssig (mk_gelt tf rk) s) pk m.
+Proof. exact bip_R_negation_same_verdict. Qed.
+Print Assumptions C15_bip340_R_negation_same_verdict.
+
+Theorem C15_bip340_odd_R_rejected : forall n yodd M (chal : Z -> Z -> M -> Z),
+  prime n ->
+  forall sg pk m,
+  yodd (bip_R' n (s_s sg) (even_y n yodd (g_k pk)) (chal (xo n (g_k (s_R sg))) (xo n (even_y n yodd (g_k pk))) m)) = true ->
+  bip_verify n yodd M chal sg pk m = false.
+Proof. exact bip_odd_R_rejected. Qed.
+Print Assumptions C15_bip340_odd_R_rejected.
+
+Theorem C15_bip340_message_changed : forall n yodd M (chal : Z -> Z -> M -> Z),
+  prime n ->
+  (forall a, 0 < a < n -> yodd (n - a) = negb (yodd a)) ->
+  (forall a b m, 0 <= chal a b m < n) ->
+  forall sg pk m m', 0 < g_k (s_R sg) < n -> 0 < g_k pk < n ->
+  bip_verify n yodd M chal sg pk m = true -> bip_verify n yodd M chal sg pk m' = true ->
+  chal (xo n (g_k (s_R sg))) (xo n (even_y n yodd (g_k pk))) m = chal (xo n (g_k (s_R sg))) (xo n (even_y n yodd (g_k pk))) m'.
+Proof. exact bip_message_changed. Qed.
+Print Assumptions C15_bip340_message_changed.
+
+(* ============================================ BLS ================================================ *)
+(* feq q f g: the linear forms f, g have the same coefficients mod q (the same group element) *)
+Theorem C15_bls_sign_verify : forall q pkenc,
+  1 < q ->
+  forall sc x m, x mod q <> 0 -> m <> [] ->
+  exists sg, bls_sign q pkenc sc x m = Some sg /\ bls_verify q pkenc sc sg (mk_kel true x) m = true.
+Proof. exact bls_sign_verify. Qed.
+Print Assumptions C15_bls_sign_verify.
+
+(* the verifier accepts iff key and signature are subgroup elements, the key is not the identity and
+   sigma = x·H(dst, payload) *)
+Theorem C15_bls_accept_iff_basic : forall q pkenc,
+  1 < q ->
+  forall sg pop pk m,
+  bls_verify q pkenc Basic (mk_bsig sg pop) pk m = true <->
+  (m <> [] /\ s_sub sg = true /\ k_sub pk = true /\ k_a pk mod q <> 0 /\
+   feq q (s_f sg) (fscale (k_a pk) (fbasis (dst_basic, m)))).
+Proof. exact bls_accept_iff_basic. Qed.
+Print Assumptions C15_bls_accept_iff_basic.
+
+Theorem C15_bls_accept_iff_aug : forall q pkenc,
+  1 < q ->
+  forall sg pop pk m,
+  bls_verify q pkenc Aug (mk_bsig sg pop) pk m = true <->
+  (m <> [] /\ s_sub sg = true /\ k_sub pk = true /\ k_a pk mod q <> 0 /\
+   feq q (s_f sg) (fscale (k_a pk) (fbasis (dst_aug, pkenc (k_a pk mod q) ++ m)))).
+Proof. exact bls_accept_iff_aug. Qed.
+Print Assumptions C15_bls_accept_iff_aug.
+
+Theorem C15_bls_accept_iff_pop : forall q pkenc,
+  1 < q ->
+  forall sg pop pk m,
+  bls_verify q pkenc Pop (mk_bsig sg pop) pk m = true <->
+  (m <> [] /\ s_sub sg = true /\ k_sub pk = true /\ k_a pk mod q <> 0 /\
+   (exists pp, pop = Some pp /\ pop_verify q pkenc pk pp = true) /\
+   feq q (s_f sg) (fscale (k_a pk) (fbasis (dst_pop_sig, m)))).
+Proof. exact bls_accept_iff_pop. Qed.
+Print Assumptions C15_bls_accept_iff_pop.
+
+Theorem C15_pop_verify_iff : forall q pkenc,
+  1 < q ->
+  forall pk pop,
+  pop_verify q pkenc pk pop = true <->
+  (s_sub pop = true /\ k_sub pk = true /\ k_a pk mod q <> 0 /\
+   feq q (s_f pop) (fscale (k_a pk) (fbasis (dst_pop_proof, pkenc (k_a pk mod q))))).
+Proof. exact pop_verify_iff. Qed.
+Print Assumptions C15_pop_verify_iff.
+
+Theorem C15_pop_binds_key : forall q pkenc,
+  1 < q ->
+  forall pk pk' pop,
+  pop_verify q pkenc pk pop = true -> pop_verify q pkenc pk' pop = true -> k_a pk mod q = k_a pk' mod q.
+Proof. exact pop_binds_key. Qed.
+Print Assumptions C15_pop_binds_key.
+
+Theorem C15_aug_binds_key_and_message : forall q pkenc,
+  1 < q -> (forall a b, length (pkenc a) = length (pkenc b)) ->
+  forall sg pop pop' pk pk' m m',
+  bls_verify q pkenc Aug (mk_bsig sg pop) pk m = true -> bls_verify q pkenc Aug (mk_bsig sg pop') pk' m' = true ->
+  k_a pk mod q = k_a pk' mod q /\ m = m'.
+Proof. exact aug_binds_key_and_message. Qed.
+Print Assumptions C15_aug_binds_key_and_message.
+
+Theorem C15_bls_message_changed : forall q pkenc,
+  1 < q ->
+  forall sg pop pop' pk m m',
+  bls_verify q pkenc Basic (mk_bsig sg pop) pk m = true -> bls_verify q pkenc Basic (mk_bsig sg pop') pk m' = true -> m = m'.
+Proof. exact basic_message_changed. Qed.
+Print Assumptions C15_bls_message_changed.
+
+Theorem C15_bls_key_changed : forall q pkenc,
+  1 < q ->
+  forall sg pop pop' pk pk' m,
+  bls_verify q pkenc Basic (mk_bsig sg pop) pk m = true -> bls_verify q pkenc Basic (mk_bsig sg pop') pk' m = true ->
+  k_a pk mod q = k_a pk' mod q.
+Proof. exact basic_key_changed. Qed.
+Print Assumptions C15_bls_key_changed.
+
+(* an aggregate verifies iff it is the sum of x_i·H(m_i) and every key is a non-identity subgroup element *)
+Theorem C15_bls_aggregate_iff : forall q,
+  1 < q ->
+  forall pks payloads sg dst,
+  core_aggregate_verify q pks payloads sg dst = true <->
+  (pks <> [] /\ length pks = length payloads /\ s_sub sg = true /\ form_is0 q (s_f sg) = false /\
+   (forall pk, In pk pks -> k_sub pk = true /\ k_a pk mod q <> 0) /\
+   feq q (s_f sg) (agg_sum pks payloads dst)).
+Proof. exact bls_aggregate_iff. Qed.
+Print Assumptions C15_bls_aggregate_iff.
+
+Theorem C15_aggregate_identity_or_out_of_subgroup_key_rejected : forall q,
+  1 < q ->
+  forall pks payloads sg dst pk,
+  In pk pks -> (k_sub pk = false \/ k_a pk mod q = 0) -> core_aggregate_verify q pks payloads sg dst = false.
+Proof. exact aggregate_bad_key_rejected. Qed.
+Print Assumptions C15_aggregate_identity_or_out_of_subgroup_key_rejected.
+
+Theorem C15_aggregate_missing_contributor_rejected : forall q,
+  1 < q ->
+  forall l1 p1 pk m l2 p2 sg dst,
+  length l1 = length p1 -> ~ In m (p1 ++ p2) -> k_a pk mod q <> 0 ->
+  feq q (s_f sg) (agg_sum (l1 ++ l2) (p1 ++ p2) dst) ->
+  core_aggregate_verify q (l1 ++ pk :: l2) (p1 ++ m :: p2) sg dst = false.
+Proof. exact aggregate_missing_rejected. Qed.
+Print Assumptions C15_aggregate_missing_contributor_rejected.
+
+Theorem C15_aggregate_foreign_contributor_rejected : forall q,
+  1 < q ->
+  forall pks payloads sg dst b m' c0,
+  ~ In m' payloads -> (b mod q <> 0 \/ c0 mod q <> 0) ->
+  feq q (s_f sg) (fadd (agg_sum pks payloads dst) (fadd (fscale b (fbasis (dst, m'))) (fgen c0))) ->
+  core_aggregate_verify q pks payloads sg dst = false.
+Proof. exact aggregate_foreign_rejected. Qed.
+Print Assumptions C15_aggregate_foreign_contributor_rejected.
+
+(* ======================= the hypotheses are satisfiable by non-trivial instances ===================== *)
+(* y^2 = x^3 + 7 over F_13: prime order 7, n < p < 2n; a signature produced and verified *)
+Example C15_ecdsa_nonvacuous :
+  prime 7 /\ 7 < 13 < 2 * 7 /\
+  (forall a b, 0 < a < 7 -> 0 < b < 7 -> (toy_xf a = toy_xf b <-> a = b \/ a = 7 - b)) /\
+  (forall a, 0 < a < 7 -> toy_yodd (7 - a) = negb (toy_yodd a)) /\
+  (forall x b k, toy_lift x b = Some k <-> (0 < k < 7 /\ toy_xf k = x /\ toy_yodd k = b)) /\
+  (forall a, 0 < a < 7 -> 0 <= toy_xf a < 13) /\
+  ecdsa_sign 7 13 toy_xf toy_lift 3 2 2 = Some (mk_sig 1 6 (Some 3)) /\
+  ecdsa_verify 7 13 toy_xf toy_lift true (mk_sig 1 1 (Some 2)) 3 2 = true.
+Proof. exact toy_instance. Qed.
+
+Example C15_schnorr_nonvacuous :
+  (forall a, 0 < a < 7 -> toy_par (7 - a) = negb (toy_par a)) /\
+  (forall a b m, 0 <= toy_chal a b m < 7) /\
+  (exists sg, bip_sign 7 toy_par Z toy_chal 3 2 5 = Some sg /\ bip_verify 7 toy_par Z toy_chal sg (mk_gelt true 3) 5 = true) /\
+  (exists sg, gen_sign 7 Z toy_chal true (full 7) (full 7) toy_par 3 2 5 = Some sg) /\
+  (exists sg, mina_sign 7 toy_par Z toy_chal 3 2 4 = Some sg /\ mina_verify 7 Z toy_chal sg (mk_gelt true 3) 4 = true).
+Proof. exact schnorr_toy_instance. Qed.
+
+Example C15_bls_nonvacuous :
+  1 < 7 /\ (forall a b, length (toy_pkenc a) = length (toy_pkenc b)) /\
+  (exists sg, bls_sign 7 toy_pkenc Pop 3 [1; 2] = Some sg /\ bls_verify 7 toy_pkenc Pop sg (mk_kel true 3) [1; 2] = true) /\
+  core_aggregate_verify 7 [mk_kel true 3; mk_kel true 5] [[1]; [2]]
+    (mk_sel true (fadd (fscale 3 (fbasis (1, [1]))) (fscale 5 (fbasis (1, [2]))))) 1 = true /\
+  core_aggregate_verify 7 [mk_kel true 3; mk_kel true 5] [[1]; [2]]
+    (mk_sel true (fscale 3 (fbasis (1, [1])))) 1 = false /\
+  aggregate_verify 7 toy_pkenc Aug (mk_sel true (fadd (fscale 3 (fbasis (2, [3; 9]))) (fscale 5 (fbasis (2, [5; 9])))))
+    [mk_kel true 3; mk_kel true 5] [[9]; [9]] [] = true.
+Proof. exact bls_toy_instance. Qed.
